@@ -12,6 +12,7 @@ import Pms.Props.C10
 #print axioms Pms.Boo2d.C10_rotation
 #print axioms Pms.Boo2d.C10_rotation_system
 #print axioms Pms.Boo2d.C10_time_average_def
+#print axioms Pms.Boo2d.C10_window
 #print axioms Pms.Boo2d.C10_time_average_props
 #print axioms Pms.Boo2d.C10_time_corr_def
 #print axioms Pms.Boo2d.C10_time_corr_props
